@@ -43,7 +43,7 @@
    transforms, top-level update / transform; see docs/C03.md. *)
 From Coq Require Import List ZArith Bool Arith.
 From SC Require Import Base.Res Base.PyList Inst.Heap Inst.ClassTable Inst.Model Inst.TypeProofs Inst.TypeCopy
-  Inst.OwnProofs Inst.OwnProofs2 Inst.OwnProofs3 Inst.OwnColl Inst.OwnCopy Inst.OwnCow Inst.OwnInit Inst.OwnMore Inst.OwnInval Inst.OwnAll.
+  Inst.OwnProofs Inst.OwnProofs2 Inst.OwnProofs3 Inst.OwnColl Inst.OwnCopy Inst.OwnCow Inst.OwnInit Inst.OwnMore Inst.OwnInval Inst.OwnAll Inst.OwnHist.
 Import ListNotations.
 Open Scope nat_scope.
 
@@ -582,6 +582,17 @@ Theorem C03_step_preserves_owned_partial :
     TypeInv ct (snd (step ct roots o s)) /\ Owned ct (heap (snd (step ct roots o s))).
 Proof. exact step_preserves_owned_h. Qed.
 
+(* ... and hence, by induction, for histories: every operation covered in the state in which
+   it starts (hist_covered, computable; the result of each operation is appended to the roots,
+   the callback counter is reset and the failure point set as in the correspondence driver) *)
+Theorem C03_history_preserves_owned :
+  forall ct, flat_table ct -> inval_ok_b ct = true -> no_reserved_b ct = true ->
+  forall ops s roots,
+    hist_covered ct s roots ops = true ->
+    TypeInv ct s -> Owned ct (heap s) ->
+    TypeInv ct (fst (run_hist ct s roots ops)) /\ Owned ct (heap (fst (run_hist ct s roots ops))).
+Proof. exact history_preserves_owned. Qed.
+
 (* non-vacuity: a table with an int, a List[int], a List[str], a Set[int], a Dict[str,int]
    attribute and a List[int] attribute with default_factory; the guards hold; conforming and
    ill-typed arguments; construction; element insertion and removal in the three families, in
@@ -694,7 +705,9 @@ Proof. vm_compute. repeat split. Qed.
 
 (* invalidated_by: ys (List[str]) is invalidated by xs (List[int]); assigning xs deletes ys *)
 Definition exA60i := mkattr 60 (TList TStr) VMissing None 1 true false None None [50].
-Definition exCT3 : ctable := [mkcls 1 [exA1; exA50; exA60i] false false None [1] 1 [] None None].
+(* ... with __post_init__ = identity and __post_copy__ = lambda: [1] *)
+Definition exCT3 : ctable :=
+  [mkcls 1 [exA1; exA50; exA60i] false false None [1] 1 [] (Some FId) (Some (FNewList [VInt 1%Z]))].
 Definition exH3 : list obj :=
   [OInst 1 [(50, VRef 1); (60, VRef 2)]; OList [VInt 1%Z]; OList [VStr 2%Z]; OList [VInt 5%Z]].
 Example C03_invalidation_example :
@@ -706,7 +719,18 @@ Example C03_invalidation_example :
    owned_b exCT3 (heap (snd r)) = true /\ ti_b exCT3 (heap (snd r)) = true) /\
   owned_opg_b exCT3 exH3 [VRef 0] (OpHelper 0 (HWithItem 50) (exArgs [VInt 7%Z] false)) = true /\
   (let r := step exCT3 [VRef 0] (OpHelper 0 (HWithItem 50) (exArgs [VInt 7%Z] false)) (mkst exH3 0 None) in
-   owned_b exCT3 (heap (snd r)) = true /\ ti_b exCT3 (heap (snd r)) = true).
+   owned_b exCT3 (heap (snd r)) = true /\ ti_b exCT3 (heap (snd r)) = true) /\
+  (* a history: build a list, construct, insert copy-on-write, update in place, reset, deepcopy *)
+  (let ops := [(OpAlloc (OList [VInt 8%Z]), None);
+               (OpConstruct 1 None [(50, VRef 4); (1, VInt 0%Z)], None);
+               (OpHelper 2 (HWithItem 50) (exArgs [VInt 9%Z] false), None);
+               (OpHelper 3 (HUpdateItem 50) (exArgs [VInt 9%Z; VStr 0%Z] true), None);
+               (OpSetAttr 3 60 (VRef 4), None);
+               (OpHelper 3 HResetTop (exArgs [] false), Some 1);
+               (OpDeepCopy 3, None)] in
+   hist_covered exCT3 (mkst exH3 0 None) [VRef 0] ops = true /\
+   owned_b exCT3 (heap (fst (run_hist exCT3 (mkst exH3 0 None) [VRef 0] ops))) = true /\
+   ti_b exCT3 (heap (fst (run_hist exCT3 (mkst exH3 0 None) [VRef 0] ops))) = true).
 Proof. vm_compute. repeat split. Qed.
 
 Print Assumptions C03_checked_before_stored.
@@ -763,5 +787,6 @@ Print Assumptions C03_update_preserves_owned.
 Print Assumptions C03_transform_copy_on_write.
 Print Assumptions C03_invalidation_preserves_owned.
 Print Assumptions C03_step_preserves_owned_partial.
+Print Assumptions C03_history_preserves_owned.
 Print Assumptions C03_owned_guards_hold.
 Print Assumptions C03_invalidation_example.
